@@ -330,6 +330,11 @@ def m_c04(ctx, st):
         pl = by_id(st["pre"], lid)
         if pl:
             allowed |= {("listing", (pl["kowner"], lid)), ("listing", (a, lid)), ("bucket", (a, bid)), ("bucket", (pl["kowner"], bid))}
+            # the proceeds are filed under (seller, bid): a record the seller already holds there must not be overwritten
+            if pl["kowner"] != a and (pl["kowner"], bid) in bmap(st["pre"]):
+                ctx.add("C04", "foreign_record_overwritten", st["i"], "bucket %r of the seller was overwritten by %s's purchase" % ((pl["kowner"], bid), a))
+            if pl["kowner"] != a and (a, lid) in lmap(st["pre"]):
+                ctx.add("C04", "foreign_record_overwritten", st["i"], "listing %r existed before %s bought listing %d" % ((a, lid), a, lid))
     for kind, key in ch:
         if key[0] != a and (kind, key) not in allowed:
             ctx.add("C04", "foreign_record_changed", st["i"], "%s %r changed by %s" % (kind, key, a))
@@ -377,6 +382,11 @@ def m_c05(ctx, st):
         after = gb_counter(post_r[field])
         if cdiff(after, before) != dict(dep):
             ctx.add("C05", "deposit_not_exact", st["i"], "%s: record grew by %r, deposit was %r" % (k, sorted(cdiff(after, before).items()), sorted(dep.items())))
+        if pre_r is not None:
+            # a top-up changes the content and nothing else of the record (owner, pending fee, status, ask, times, ...)
+            other = [f for f in pre_r if f != field and pre_r.get(f) != post_r.get(f)]
+            if other:
+                ctx.add("C05", "topup_changed_other_fields", st["i"], "%s changed %r of record %r (e.g. %r -> %r)" % (k, other, key, pre_r.get(other[0]), post_r.get(other[0])))
         for kind, kk in changed_records(st["pre"], st["post"]):
             if kk != key:
                 ctx.add("C05", "deposit_touched_other_record", st["i"], "%s also changed %s %r" % (k, kind, kk))
